@@ -520,3 +520,134 @@ fn c07_nonneg() {
     kani::cover!(co < 0, "C07.cover.negative_offset");
 }
 
+
+// =============================================================================================
+// C08 dispatch: process_messages maps every message to the documented handler
+// =============================================================================================
+use crate::channels::DispatchBox;
+use crate::ChannelId;
+use std::hash::Hash;
+use std::sync::mpsc;
+
+static mut DISPATCH_COUNT: u32 = 0;
+static mut DISPATCH_LAST: Option<ClockErrorBound> = None;
+
+/// a sink that survives the move of the updater into process_messages
+struct StaticWriter;
+impl ShmWrite for StaticWriter {
+    fn write(&mut self, ceb: &ClockErrorBound) {
+        unsafe {
+            DISPATCH_COUNT += 1;
+            DISPATCH_LAST = Some(*ceb);
+        }
+    }
+}
+
+static mut RECV_CALLS: u32 = 0;
+static mut FIRST_MESSAGE_KIND: u8 = 0;
+static mut FIRST_PHC: i64 = 0;
+static mut FIRST_ASOF: libc::timespec = libc::timespec { tv_sec: 0, tv_nsec: 0 };
+
+fn first_message() -> Message {
+    unsafe {
+        match FIRST_MESSAGE_KIND {
+            0 => Message::ClockErrorBoundData((any_tracking(), FIRST_PHC, FIRST_ASOF)),
+            1 => Message::ChronyNotRespondingGracePeriod,
+            2 => Message::ChronyNotResponding,
+            3 => Message::PhcErrorBoundRetrievalFailedGracePeriod,
+            4 => Message::PhcErrorBoundRetrievalFailed,
+            5 => Message::ThreadTerminate(ChannelId::ClockErrorBoundPoller),
+            6 => Message::ThreadPanic(ChannelId::ClockErrorBoundPoller),
+            _ => Message::ThreadAbort,
+        }
+    }
+}
+
+/// assumed contract on std::sync::mpsc: recv yields the messages that were sent, in order; here:
+/// one symbolic message, then ThreadAbort
+fn stub_recv<T>(_this: &mpsc::Receiver<T>) -> Result<T, mpsc::RecvError> {
+    let m = unsafe {
+        RECV_CALLS += 1;
+        if RECV_CALLS == 1 { first_message() } else { Message::ThreadAbort }
+    };
+    let t: T = unsafe { std::mem::transmute_copy(&m) };
+    std::mem::forget(m);
+    Ok(t)
+}
+
+fn stub_send<K: Hash + Eq, M>(_this: &DispatchBox<K, M>, _channel_id: &K, message: M) -> Result<(), mpsc::SendError<M>> {
+    std::mem::forget(message);
+    Ok(())
+}
+
+#[kani::proof]
+#[kani::unwind(4)]
+#[kani::stub(extract_bound_from_tracking, stub_extract)]
+#[kani::stub(std::sync::mpsc::Receiver::recv, stub_recv)]
+#[kani::stub(crate::channels::DispatchBox::send, stub_send)]
+fn c08_dispatch() {
+    // an updater that has already stored a first synchronised measurement (so that FreeRunning
+    // and Unknown outcomes are distinguishable in what is published)
+    let drift: u32 = kani::any();
+    let mut u = ShmUpdater::new(StaticWriter, drift);
+    let b0: i64 = kani::any();
+    kani::assume(0 <= b0 && b0 < (1i64 << 61));
+    let a0 = libc::timespec { tv_sec: kani::any(), tv_nsec: kani::any() };
+    kani::assume(a0.tv_sec < i64::MAX - 1000);
+    unsafe {
+        EXTRACT_BOUND = b0;
+        EXTRACT_STATUS = 1;
+    }
+    u.process_clock_update(any_tracking(), 0, a0);
+    unsafe {
+        DISPATCH_COUNT = 0;
+    }
+    // the message under test
+    let kind: u8 = kani::any();
+    kani::assume(kind < 8);
+    let b: i64 = kani::any();
+    let p: i64 = kani::any();
+    kani::assume(0 <= b && b < (1i64 << 61) && 0 <= p && p < (1i64 << 61));
+    let s = any_chrony_status();
+    let as_of = libc::timespec { tv_sec: kani::any(), tv_nsec: kani::any() };
+    kani::assume(as_of.tv_sec < i64::MAX - 1000);
+    unsafe {
+        FIRST_MESSAGE_KIND = kind;
+        FIRST_PHC = p;
+        FIRST_ASOF = as_of;
+        EXTRACT_BOUND = b;
+        EXTRACT_STATUS = status_code(s);
+    }
+    let (tx, rx) = mpsc::channel::<Message>();
+    std::mem::forget(tx);
+    let dbox: DispatchBox<ChannelId, Message> = unsafe { std::mem::MaybeUninit::zeroed().assume_init() };
+    let ctx = Context { channel_id: ChannelId::ShmWriter, mbox: rx, dbox };
+    process_messages(ctx, u);
+
+    let (count, last) = unsafe { (DISPATCH_COUNT, DISPATCH_LAST) };
+    let rec = |bound: i64, at: libc::timespec, st: ClockStatus| {
+        ClockErrorBound::new(at, libc::timespec { tv_sec: at.tv_sec + 1000, tv_nsec: 0 }, bound, drift, 0, st)
+    };
+    match kind {
+        0 => {
+            kani::assert(count == 1, "C08.dispatch.data_publishes_once");
+            let exp = if s == ChronyClockStatus::Synchronized { rec(b + p, as_of, ClockStatus::Synchronized) } else { rec(b0, a0, to_clock_status(s)) };
+            kani::assert(last == Some(exp), "C08.dispatch.data_goes_to_process_clock_update_with_phc_and_as_of");
+        }
+        1 | 3 => {
+            kani::assert(count == 1, "C08.dispatch.grace_outage_publishes_once");
+            kani::assert(last == Some(rec(b0, a0, ClockStatus::FreeRunning)), "C08.dispatch.grace_messages_are_free_running_class");
+        }
+        2 | 4 => {
+            kani::assert(count == 1, "C08.dispatch.outage_publishes_once");
+            kani::assert(last == Some(rec(b0, a0, ClockStatus::Unknown)), "C08.dispatch.beyond_grace_messages_are_unknown_class");
+        }
+        _ => {
+            kani::assert(count == 0, "C08.dispatch.control_messages_publish_nothing");
+        }
+    }
+    kani::assert(unsafe { RECV_CALLS } == if kind == 7 { 1 } else { 2 }, "C08.dispatch.stops_on_thread_abort");
+    kani::cover!(kind == 0 && s == ChronyClockStatus::Synchronized, "C08.cover.dispatch_sync_data");
+    kani::cover!(kind == 3, "C08.cover.dispatch_phc_grace");
+    kani::cover!(kind == 7, "C08.cover.dispatch_abort");
+}
